@@ -295,6 +295,9 @@ def run(ctx):
         from harness.core import MachineryError
 
         raise MachineryError("vacuous history check: no load program produced damage")
+    from harness.props import staggered_trace
+
+    staggered_trace.staggered(ctx)
     ctx.cov["rule"] = "425 exact strain states (all multiplicity / sign patterns x rational rotations) mixed within elements through 14 splits x materials; load programs of PhaseFieldHist.tla run on a real simulation per irreversibility solver; distinct = (dim, split, regularisation, material) + programs"
     ctx.assume("float neighbours (random rotation + symmetric noise) of every lattice state are compared with a split built on numpy.linalg.eigh at 1e-3 relative (the closed-form eigenprojectors are ill-conditioned close to repeated values), the partition relations at 1e-9")
     ctx.assume("exact expectations exist for the isotropic Miehe and Bourdin splits; the other splits are checked for finiteness and the partition relations on the same states")
